@@ -27,7 +27,7 @@ MANIFEST = {
     'note': 'The overspeed test inside calc_speeds is an assert! (process abort), which the statement forbids; its reachability is exactly the undecided core.',
 }
 EXPLANATION = 'Terms and guards of BrakingPoints::recalc / calc_speeds, SpeedLimitTrainSim::solve_required_pwr / extend_path / walk_internal.'
-RULES = ['C03-1.anchor', 'C03-2.rebuild', 'C03-3.controller', 'C03-4.errors', 'C03-5.window', 'C03-6.profile']
+RULES = ['C03-1.anchor', 'C03-2.rebuild', 'C03-3.controller', 'C03-4.errors', 'C03-5.window', 'C03-6.profile', 'C03-7.resistance']
 ASSUMPTIONS = ['dt > 0, compound mass > 0']
 
 A = [(r'(^|\.)dt$', 'pos'), (r'mass_static$', 'pos'), (r'mass_rot$', 'nonneg')]
@@ -58,6 +58,10 @@ def run(ctx):
     from .common import RuleProxy
     from . import C02
     C02.run(RuleProxy(ctx, {'C02-3.add_speeds': 'C03-6.profile', 'C02-5.sites': 'C03-6.profile', 'C02-6.search': 'C03-6.profile', 'C02-7.select': 'C03-6.profile', 'C02-2.seed': 'C03-6.profile'}))
+    # the braking curve is built by evaluating the resistance model backwards along the path: its front/rear index freshness, the
+    # cached index search and the force formulas (C07) are necessary here too
+    from . import C07
+    C07.run(RuleProxy(ctx, {'C07-6.fresh': 'C03-7.resistance', 'C07-8.index': 'C03-7.resistance', 'C07-2.strap': 'C03-7.resistance', 'C07-4.resnet': 'C03-7.resistance'}))
     anchor(ctx)
     rebuild(ctx)
     controller(ctx)
